@@ -3,6 +3,7 @@
 PROPS = {}
 
 PROPS["C18"] = dict(
+    producers=[("pyvc.wrapper_check", "wrapper_items")],
     level="proof",
     technique="contract-based deductive verification: loop invariants on the real _trim/_crop (pyvc VCs -> z3), wrapper term check",
     not_decided=["degenerate raster with no kept cell: only in-range bounds are required of the result"],
@@ -11,6 +12,7 @@ PROPS["C18"] = dict(
 )
 
 PROPS["C08"] = dict(
+    producers=[("pyvc.wrapper_check", "wrapper_items")],
     level="proof",
     technique="contract-based deductive verification: loop invariants + documented-formula postconditions on the real slope/aspect/curvature kernels (pyvc VCs -> z3, XR float model), lemmas over the spec functions",
     not_decided=["bit-level float32 rounding of the results (slope <= 90 is proved in real arithmetic as < 90.0000009)"],
@@ -19,6 +21,7 @@ PROPS["C08"] = dict(
 )
 
 PROPS["C13"] = dict(
+    producers=[("pyvc.wrapper_check", "wrapper_items")],
     level="proof",
     technique="contract-based deductive verification: per-cell postconditions (band formula, NaN iff zero denominator) on the real spectral kernels (pyvc VCs -> z3, XR float model); exact IEEE float32 lemmas for the normalised difference",
     not_decided=["'single precision': Numba evaluates 2.0*red etc. in float64 and rounds on store; only the XR value is proved"],
@@ -27,6 +30,7 @@ PROPS["C13"] = dict(
 )
 
 PROPS["C12"] = dict(
+    producers=[("pyvc.wrapper_check", "wrapper_items")],
     level="proof",
     technique="contract-based deductive verification: binary-search loop invariant + first-bin postcondition on the real _cpu_bin, per-cell postcondition on _cpu_binary (pyvc VCs -> z3)",
     not_decided=["Jenks optimality (bounded)", "exact float behaviour of np.percentile interpolation"],
@@ -37,6 +41,7 @@ PROPS["C12"] = dict(
 )
 
 PROPS["C09"] = dict(
+    producers=[("pyvc.wrapper_check", "wrapper_items")],
     level="proof",
     technique="contract-based deductive verification: ghost-window and partial-sum loop invariants on the real focal / convolution kernels (pyvc VCs -> z3, XR float model; reducers uninterpreted)",
     not_decided=[],
